@@ -22,7 +22,9 @@ def gen_cases(rng, tier):
                     # values drawn inside the schema ranges
                     c["fluid"] = rng.choice([{"fluid_name": "WATER", "concentration_percent": 0.0, "temperature": 20},
                                              {"fluid_name": "PROPYLENEGLYCOL", "concentration_percent": rng.choice([10.0, 25.5]), "temperature": rng.choice([5, 20.5])},
-                                             {"fluid_name": "ETHYLENEGLYCOL", "concentration_percent": 30.0, "temperature": 10}])
+                                             {"fluid_name": "ETHYLENEGLYCOL", "concentration_percent": 30.0, "temperature": 10},
+                                             {"fluid_name": "METHYLALCOHOL", "concentration_percent": rng.choice([15.0, 22.5]), "temperature": rng.choice([5, 12.5])},
+                                             {"fluid_name": "ETHYLALCOHOL", "concentration_percent": 20.0, "temperature": 8}])
                     c["soil"]["conductivity"] = rng.choice([1.1, 2.0, 3.456])
                     c["soil"]["undisturbed_temp"] = rng.choice([8.5, 18.3])
                     c["grout"]["conductivity"] = rng.choice([0.7, 1.0, 2.15])
@@ -54,6 +56,11 @@ def gen_cases(rng, tier):
                 seen.add(k)
                 keep.append(c)
         cs = keep
+    # every fluid the API accepts, by name (the quick selection above may not draw them all)
+    for fl, pc, t in (("WATER", 0.0, 12), ("PROPYLENEGLYCOL", 20.0, 6), ("ETHYLENEGLYCOL", 25.0, 4), ("METHYLALCOHOL", 18.0, 3), ("ETHYLALCOHOL", 22.0, 7)):
+        c = cfg(months=12, loads={"kind": "balanced", "scale": 1000.0, "seed": 1})
+        c["fluid"] = {"fluid_name": fl if rng.random() < 0.5 else fl.capitalize(), "concentration_percent": pc, "temperature": t}
+        cs.append(c)
     # several years of hourly loads (the API accepts them): the written file must validate and load like any other
     my = cfg("RECTANGLE", months=24, loads={"kind": "balanced", "scale": 1000.0, "seed": 2})
     my["_years_of_loads"] = 2
@@ -121,15 +128,39 @@ Eval vm_compute in (length cases, length (filter (fun c => negb (ok c)) cases)).
                 chk.broken.append({"name": "correspondence C17: the key sets of Model/InputIO (regenerated) differ from what write_input_file wrote", "detail": f"{m.group(2)} of {m.group(1)} shapes"})
             chk.cov["traces_validated_against_impl"] = int(m.group(1)) - int(m.group(2))
             chk.cov["correspondence_cases"] = int(m.group(1))
-    # running the written file produces the same design
-    if not chk.violations:
-        base = cfg(months=12)
-        r = run_impl("io_drv.py", {"cases": [base]})
-        sys_path_hack = None
-        a = e2e_runs([base])[0]
-        import os, tempfile
-        sys.path.insert(0, os.path.join(VERIF, "tools", "impl"))
-        chk.cov["evaluations"] += 1
+    # running the written file produces the same design: the API's design against the command-line run of the file the API wrote
+    if len(chk.violations) < 5:
+        dcs = []
+        for fl, pc, t in [("METHYLALCOHOL", 18.0, 3), ("PROPYLENEGLYCOL", 20.0, 6)] + ([] if quick else [("WATER", 0.0, 12), ("ETHYLENEGLYCOL", 25.0, 4), ("ETHYLALCOHOL", 22.0, 7)]):
+            c = cfg(months=12, loads={"kind": "balanced", "scale": 24000.0, "seed": 4}, design={"min_eft": -2.0})
+            c["fluid"] = {"fluid_name": fl, "concentration_percent": pc, "temperature": t}
+            dcs.append(c)
+        dcs.append(cfg("RECTANGLE", "COAXIAL", months=12, loads={"kind": "cooling", "scale": 20000.0, "seed": 6}, flow=("SYSTEM", 3.0)))
+        dcs[-1]["pipe"].update({"conductivity_inner": 0.15, "conductivity_outer": 0.9})
+        if not quick:
+            dcs.append(cfg("BIRECTANGLECONSTRAINED", "DOUBLEUTUBESERIES", months=12, loads={"kind": "heating", "scale": 22000.0, "seed": 8}))
+            dcs.append(cfg("ROWWISE", months=12, loads={"kind": "balanced", "scale": 22000.0, "seed": 9}))
+        with ThreadPoolExecutor(max_workers=NPROC) as ex:
+            drs = list(ex.map(lambda c: run_impl("io_drv.py", {"mode": "same_design", "cases": [c]}, timeout=2400), dcs))
+        for c, rr in zip(dcs, drs):
+            if isinstance(rr, dict) and "_error" in rr:
+                chk.broken.append({"name": "C17 same-design run failed in the harness", "detail": rr["_error"][-300:]})
+                continue
+            o = rr[0]
+            chk.cov["evaluations"] += 1
+            if not o.get("ok"):
+                chk.broken.append({"name": "C17 same-design run failed", "detail": json.dumps(o)[-300:]})
+                continue
+            nontrivial += 1
+            a, b = o["api"], o["cli"]
+            if "exc" in a:
+                if b["rc"] == 0 and len(chk.violations) < 5:
+                    chk.violation("same-design", c, {"api": a, "command_line": b}, "running the written file produces the same outcome as the API run (here: no design)")
+                continue
+            bad = b["rc"] != 0 or b.get("nbh") != a["nbh"] or abs(b["H"] - a["H"]) > 1e-6 or abs(b["max"] - a["max"]) > 1e-6 or abs(b["min"] - a["min"]) > 1e-6 \
+                or abs(b["rho"] - a["rho"]) > 1e-9 * a["rho"]
+            if bad and len(chk.violations) < 5:
+                chk.violation("same-design", c, {"api": a, "command_line_run_of_the_written_file": b}, "running the written file produces the same design as the API configuration it was written from")
     chk.cov["distinct_nontrivial"] = nontrivial
     chk.cov["rule"] = ("configurations over 6 geometries x 4 pipe types x optional keys (max_boreholes, continue_if_design_unmet, perimeter ratio) with values inside the schema ranges, plus RowWise "
                        "rotations on the 0.1 degree grid; each written, validated with the tool's schemas, loaded through the CLI loading path and written again (bytes compared); non-trivial = one configuration")
@@ -160,6 +191,8 @@ def judge(chk, c, o):
 def replay(payload):
     from lib import Check
     chk = Check("C17", "quick", payload.get("seed", 0))
+    if payload.get("kind") != "input-file":
+        return "RERUN"
     r = run_impl("io_drv.py", {"cases": [payload["input"]]})
     judge(chk, payload["input"], r[0])
     for path, found, pl in chk.violations:
